@@ -270,10 +270,17 @@ def check_repeat(case: Dict[str, Any]) -> Outcome:
 
     holder: Dict[str, Any] = {}
 
+    # an application keeps ONE list of the versions it supports and hands it to every handshake: with `shared_list` all
+    # rounds receive the same list object (its content is that of the first round)
+    shared: Optional[List[str]] = list(rounds[0]["supported"]) if case.get("shared_list") else None
+    shared_before = list(shared) if shared is not None else None
+    if shared is not None:
+        rounds = [dict(rd, supported=list(shared_before)) for rd in rounds]
+
     async def call(r, w):
         for rd in rounds:
             try:
-                v = await send_initialize(r, w, timeout=T, supported_versions=list(rd["supported"]), preferred_version=rd.get("preferred"))
+                v = await send_initialize(r, w, timeout=T, supported_versions=shared if shared is not None else list(rd["supported"]), preferred_version=rd.get("preferred"))
                 outcomes.append(("return", getattr(v, "protocolVersion", None)))
             except Exception as e:  # noqa
                 outcomes.append(("raise", e))
@@ -287,7 +294,9 @@ def check_repeat(case: Dict[str, Any]) -> Outcome:
 
     res = drive(call, [], side=grab, max_vtime=len(rounds) * (T + 1) + 10)
     out.nontrivial = True
-    out.classes = ("repeated-handshake", f"rounds:{len(rounds)}")
+    out.classes = ("repeated-handshake", f"rounds:{len(rounds)}") + (("one-list-object-for-all-rounds",) if shared is not None else ())
+    if shared is not None and shared != shared_before:
+        out.fail("callers-version-list-modified", f"the list handed to send_initialize was {shared_before!r} and is {shared!r} after {len(rounds)} handshake(s)")
     if res.outcome != "return" or len(outcomes) != len(rounds):
         out.fail("repeated-handshake-did-not-finish", f"{res.outcome} {res.exc!r} outcomes={outcomes!r}")
         return out
@@ -306,6 +315,11 @@ def check_repeat(case: Dict[str, Any]) -> Outcome:
             return out
         if len(reqs) != 1:
             out.fail("not-exactly-one-initialize-request", f"round {k}: {seg!r}")
+            return out
+        want_prop = proposed_ref(L, rd.get("preferred"))
+        got_prop = (reqs[0].get("params") or {}).get("protocolVersion")
+        if got_prop != want_prop:
+            out.fail("proposed-version-differs-from-the-callers-choice", f"round {k}: list {L!r} preferred {rd.get('preferred')!r}: proposed {got_prop!r}, documented choice {want_prop!r} (earlier rounds: {[(r_['preferred']) for r_ in rounds[:k]]!r})")
             return out
         if ok_expected:
             if oc[0] != "return" or oc[1] != ans["v"]:
@@ -430,6 +444,16 @@ def job_repeat(col: Collector, seed: int, tier: str) -> None:
         for combo in itertools.product(range(len(alpha)), repeat=L):
             case = {"repeat": [alpha[i] for i in combo]}
             col.record(case, check(case))
+    # one list object handed to every round; the preference changes from round to round; the server echoes the proposal
+    for L_ in (["2025-06-18", "2025-03-26", "2024-11-05"], ["2025-03-26", "2025-06-18"], ["2025-06-18", "draft", "2024-11-05"]):
+        prefs = L_ + [None, "2099-01-01", ""]
+        for p1 in prefs:
+            for p2 in prefs:
+                for p3 in (None, L_[-1]):
+                    rds = [{"supported": L_, "preferred": p_, "answer": {"kind": "version", "v": proposed_ref(L_, p_)}} for p_ in (p1, p2, p3)]
+                    case = {"repeat": rds, "shared_list": True}
+                    col.record(case, check(case))
+    col.exhaustive_parts.append("one caller-owned version list handed to 3 consecutive handshakes x every sequence of preferences (each member, none, unsupported, empty) on 3 lists")
     col.exhaustive_parts.append("re-negotiation: all sequences of 2 (thorough: and 3) handshakes over one connection from a 7-round alphabet (success, counter-proposal, mismatch, error, silence, answer arriving after the deadline)")
 
 
